@@ -6,7 +6,7 @@
 (* each record kind has its predicates in PCPlan / PCConfig.  The state is *)
 (* just the position in the record stream: records are independent.        *)
 (***************************************************************************)
-EXTENDS Integers, Sequences, FiniteSets, TLC, Json, PCPlan, PCConfig, PCScale, PCOutputRec
+EXTENDS Integers, Sequences, FiniteSets, TLC, Json, PCPlan, PCConfig, PCScale, PCOutputRec, PCApi
 
 CONSTANT TraceFile
 Trace == ndJsonDeserialize(TraceFile)
@@ -25,6 +25,7 @@ Viol(e) ==
     [] e.kind = "scale" -> ScaleViolated(e)
     [] e.kind = "update" -> UpdateViolated(e)
     [] e.kind = "output" -> OutputViolated(e)
+    [] e.kind = "api" -> ApiViolated(e)
     [] OTHER -> {}
 
 Init == l = 1
@@ -33,7 +34,7 @@ Next ==
   /\ LET e == Trace[l]  v == Viol(e) IN
        IF v = {} THEN TRUE
        ELSE PrintT("VIOL ## " \o e.id \o " ## " \o ToString(l) \o " ## " \o ToString(v) \o " ## "
-                   \o ToString([kind |-> e.kind, detail |-> IF e.kind \in {"scale", "update"} THEN ScaleDetail(e) ELSE IF e.kind = "output" THEN OutputDetail(e) ELSE Detail(e)]) \o " ## " \o ToString([rec |-> l]))
+                   \o ToString([kind |-> e.kind, detail |-> IF e.kind \in {"scale", "update"} THEN ScaleDetail(e) ELSE IF e.kind = "output" THEN OutputDetail(e) ELSE IF e.kind = "api" THEN ApiDetail(e) ELSE Detail(e)]) \o " ## " \o ToString([rec |-> l]))
   /\ l' = l + 1
 Spec == Init /\ [][Next]_vars
 =============================================================================
